@@ -86,7 +86,7 @@ theorem C14_bundle (fl : Flags) (ha : fl.bundleAtomic = true) (p : Pool) (u : Li
     ∧ ((bundle fl p g).2 = .none → (bundle fl p g).1 = p)
     ∧ ((bundle fl p g).2 = .panic → (bundle fl p g).1 = p) := by
   by_cases h1 : (!g.tsOk) = true
-  · simp [bundle, h1]
+  · cases hc : fl.clockChecked <;> simp [bundle, h1, hc]
   by_cases h2 : (p.txs.isEmpty || !p.newTx) = true
   · simp [bundle, h1, h2]
   by_cases h3 : (!g.ticket || !g.jitter || decide (p.work < g.need)) = true
